@@ -170,7 +170,12 @@ func (fv *FV) execGhost(st *State, g *GhostStmt, pos token.Pos) {
 	}
 	switch g.Kind {
 	case "assert":
+		fv.pendingFacts = nil
 		parts := fv.splitConj(env, g.RHS)
+		for _, f := range fv.pendingFacts {
+			fv.assume(st, f)
+		}
+		fv.pendingFacts = nil
 		for j, phi := range parts {
 			name := "ghost.assert[" + g.Src + "]"
 			if len(parts) > 1 {
@@ -737,7 +742,12 @@ func (fv *FV) applyLemma(st *State, env *Env, g *GhostStmt, pos token.Pos) {
 	fv.assume(sub, ihS)
 	// hints seed the terms the instantiation needs
 	for _, h := range lm.Hints {
+		fv.pendingFacts = nil
 		t := fv.spec(lenv.with(lm.InductOn, j0), h)
+		for _, f := range fv.pendingFacts {
+			fv.assume(sub, f)
+		}
+		fv.pendingFacts = nil
 		c := fv.fresh("hint", t.Sort)
 		fv.define(sub, eq(c, t.S))
 	}
